@@ -348,6 +348,119 @@ example :
     (handle cfg s₂ ⟨.post, .db "nope", none, some .cbor, none, .rpc "db.create" ⟨some "x", none, none⟩, "g"⟩).2 := by
   decide
 
+/-- **uniform_rejection_wire.** On the wire — status, the complete header set, the body bytes —
+every rejection is the one constant `rejectionWire enc` of its negotiated encoding: two rejected
+RPC requests that negotiate the same encoding are answered byte-identically, whatever the states,
+addressed names (existing, bound to another key, unbound, missing, malformed), methods, bodies and
+tokens were. (The harness compares `rejectionWire` with the real router's bytes on every run.) -/
+theorem uniform_rejection_wire (cfg : Cfg) (s₁ s₂ : State) (r₁ r₂ : Request)
+    (hv₁ : r₁.verb = .post) (hv₂ : r₂.verb = .post)
+    (ht₁ : r₁.target = .root ∨ ∃ n, r₁.target = .db n) (ht₂ : r₂.target = .root ∨ ∃ n, r₂.target = .db n)
+    (hacc : r₁.accept = r₂.accept) (hct : r₁.contentType = r₂.contentType)
+    (h₁ : (handle cfg s₁ r₁).2.principal = none) (h₂ : (handle cfg s₂ r₂).2.principal = none) :
+    render (handle cfg s₁ r₁).2 = some (rejectionWire (negotiateOr r₁.accept r₁.contentType .cbor)) ∧
+    render (handle cfg s₂ r₂).2 = render (handle cfg s₁ r₁).2 := by
+  obtain ⟨heq, hrep, _, _⟩ := uniform_rejection cfg s₁ s₂ r₁ r₂ hv₁ hv₂ ht₁ ht₂ hacc hct h₁ h₂
+  have henc : (handle cfg s₁ r₁).2.enc = negotiateOr r₁.accept r₁.contentType .cbor := by
+    unfold handle at h₁ ⊢
+    rcases ht₁ with ht | ⟨n, ht⟩
+    · rw [ht, hv₁] at h₁ ⊢
+      have e := rpc_principal_none cfg s₁ .root r₁ h₁
+      show (rpc cfg s₁ .root r₁).2.enc = _
+      rw [e]; rfl
+    · rw [ht, hv₁] at h₁ ⊢
+      have e := rpc_principal_none cfg s₁ (.database n) r₁ h₁
+      show (rpc cfg s₁ (.database n) r₁).2.enc = _
+      rw [e]; rfl
+  refine ⟨?_, by rw [heq]⟩
+  unfold render
+  rw [hrep, henc]
+
+/-- the constant, byte for byte (JSON): 401, exactly two headers, 72 bytes -/
+example : rejectionWire .json =
+    ⟨401, [("content-length", "72"), ("content-type", "application/json")],
+     asciiBytes "{\"error\":{\"code\":\"unauthorized\",\"message\":\"invalid or missing API key\"}}"⟩ := by decide
+
+example : (rejectionWire .cbor).status = 401 ∧ (rejectionWire .cbor).body.length = 62 ∧
+    (rejectionWire .cbor).headers = [("content-length", "62"), ("content-type", "application/cbor")] := by decide
+
+/-! ## Routing: path, query and body parameters -/
+
+/-- **routing_ignores_query.** Whatever follows the first `?` of the request target — e.g.
+`?db_name=other&name=other` — has no influence on the route and on the database addressed. -/
+theorem routing_ignores_query (p q : List Nat) (hp : ∀ b ∈ p, b ≠ 63) :
+    routePath (p ++ 63 :: q) = routePath p :=
+  routePath_eq_of_pathOnly _ _ (by rw [pathOnly_append_query p q hp, pathOnly_of_no_query p hp])
+
+/-- **root_scope_only_slash.** The root scope is addressed by the path `/` and nothing else; a
+database scope by exactly one non-empty raw segment, whose percent-decoding (as UTF-8) *is* the
+name the binding is looked up with and `get_db` is called with. -/
+theorem root_scope_only_slash (t : List Nat) :
+    (routePath t = .root ↔ pathOnly t = [47]) ∧
+    (∀ n, routePath t = .db n → ∃ seg, pathOnly t = 47 :: seg ∧ seg ≠ [] ∧ seg.contains 47 = false ∧
+      utf8Decode (percentDecode seg) = some n) :=
+  ⟨routePath_root t, fun n h => routePath_db t n h⟩
+
+/-- **db_key_confined_raw.** `db_key_confined` for a request given by its raw target: the database a
+per-database principal acts on is the decoded path segment — not a name in the query, and (the
+model's handlers take none) not a name in the body. -/
+theorem db_key_confined_raw (cfg : Cfg) (s : State) (r : Request) (target : List Nat)
+    (hwf : lookup s.bound cfg.primary = none)
+    (h : (handle cfg s (routed r target)).2.principal = some .database) :
+    ∃ n k seg, routePath target = .db n ∧ pathOnly target = 47 :: seg ∧
+      utf8Decode (percentDecode seg) = some n ∧
+      lookup s.bound n = some k ∧ bearerToken r.auth = some k ∧
+      (handle cfg s (routed r target)).1 = s ∧
+      ConfinedReply n (routed r target) (handle cfg s (routed r target)).2.reply := by
+  obtain ⟨n, k, a, _, ht, htok, hl, _, _, hs, hc⟩ := db_key_confined cfg s (routed r target) hwf h
+  have ht' : routePath target = .db n := ht
+  obtain ⟨seg, hp, _, _, hd⟩ := routePath_db target n ht'
+  exact ⟨n, k, seg, ht', hp, hd, hl, htok, hs, hc⟩
+
+example : routePath (asciiBytes "/tenant_a?db_name=tenant_b&name=tenant_b") = .db "tenant_a" := by decide
+example : routePath (asciiBytes "/?db_name=tenant_a") = .root := by decide
+example : routePath (asciiBytes "/%74enant%5fa") = .db "tenant_a" := by decide
+example : routePath (asciiBytes "/a%2Fb") = .db "a/b" := by decide
+example : routePath (asciiBytes "/%C3") = .badUtf8 ∧ routePath (asciiBytes "/%ED%A0%80") = .badUtf8 ∧
+    routePath (asciiBytes "/%C0%AF") = .badUtf8 := by decide
+example : routePath (asciiBytes "/a/") = .unrouted ∧ routePath (asciiBytes "//") = .unrouted ∧
+    routePath (asciiBytes "/a/../b") = .unrouted := by decide
+
+/-! ## Storage addressing -/
+
+/-- **handler_addresses_path_db.** The only database whose storage a request can reach through a
+handler is the one its path names, and only while that database is open: whatever the principal,
+method and parameters. Every other answer (`touchedDb = none`) is given without storage access.
+(Handler bodies are not modelled; that a handler holding the `AndaDB` of `n` stays under the prefix
+`n/` — and that `touchedDb = none` means no access — is compared with the recording store on every
+request of the database route.) -/
+theorem handler_addresses_path_db (cfg : Cfg) (s : State) (r : Request) (n : String)
+    (h : touchedDb (handle cfg s r).2 = some n) :
+    r.verb = .post ∧ r.target = .db n ∧ s.opened.contains n = true := by
+  cases ht : r.target <;> cases hv : r.verb <;> unfold handle at h <;> simp only [ht, hv] at h <;>
+    try (cases h; done)
+  · rw [touchedDb_rpc_root] at h; cases h
+  · rename_i m
+    obtain ⟨e, ho⟩ := touchedDb_rpc_database _ _ _ _ _ h
+    subst e
+    exact ⟨rfl, rfl, ho⟩
+
+/-- **db_key_touches_only_own.** A per-database principal's request reaches storage, if at all,
+only under the prefix of the database its key is bound to. -/
+theorem db_key_touches_only_own (cfg : Cfg) (s : State) (r : Request) (n' : String)
+    (hwf : lookup s.bound cfg.primary = none)
+    (hp : (handle cfg s r).2.principal = some .database)
+    (h : touchedDb (handle cfg s r).2 = some n') :
+    ∃ k, r.target = .db n' ∧ lookup s.bound n' = some k ∧ bearerToken r.auth = some k ∧ n' ≠ cfg.primary := by
+  obtain ⟨n, k, _, _, ht, htok, hl, _, _, _, _⟩ := db_key_confined cfg s r hwf hp
+  obtain ⟨_, ht', _⟩ := handler_addresses_path_db cfg s r n' h
+  rw [ht] at ht'
+  cases ht'
+  refine ⟨k, ht, hl, htok, ?_⟩
+  intro e
+  rw [e, hwf] at hl
+  cases hl
+
 /-! ## Revocation and rotation -/
 
 /-- **revocation_immediate.** Once `db.remove_api_key n` has answered, the key that was bound to
